@@ -40,7 +40,8 @@ func ValueOf(query *Query, current Map, any any) (any, error) {
 			if doc, ok := rs.(Map); ok && value == "<-" {
 				clone := make(Map, len(doc))
 				for key, entry := range doc {
-					if _, ok := entry.(CteEvaluation); !ok {
+					// (the enclosing row of a nested select carries a marker of its own)
+					if _, ok := entry.(CteEvaluation); !ok && key != "<-" {
 						clone[key] = entry
 					}
 				}
